@@ -824,10 +824,19 @@ def do_op(doc, path, op, rng_attr):
         t = t[p]
     k = op[0]
     if k == "get":
-        if not hasattr(t, "_to_base"):
-            return t                                     # d[p] of a scalar is the scalar
         if not path:
             return t()
+        if not hasattr(t, "_to_base"):
+            # d[p1]...[pn] is a scalar: the read is completed by a read of the whole document, so that the statement
+            # performs the same loads as for a container (one per path element + one); the observation is the
+            # document's value at the path after that load.  (Without it the scalar comes from the LAST path element's
+            # load - the same value unless a forced flush between the two loads changed the file under a second buffer
+            # key, i.e. only in known-finding-4 programs; found by thorough, round 4.)
+            doc()
+            v = doc._to_base()
+            for p in path:
+                v = v[p]
+            return v
         # d[p1]...[pn]() loads once more; if that load replaces the child (its type changed on disk / in the buffer
         # through another object) the reference held here is detached and would show the old content.  The
         # observation is the document's value at the path after that load, navigated without further loads.
